@@ -375,31 +375,54 @@ class SpecMixin:
         m.cache.append((kz, v))
         return v
 
-    def sp_names_nonempty(self, e, fr):
-        """names_nonempty(headers): every header name has length >= 1.  As an assumption it becomes
-        an element fact of the sequence; as an obligation it is proved for an arbitrary index."""
-        from .sym import Pair
+    def seq_forall(self, v, pred):
+        """(forall element el of the header list v: pred(el)) -- structural over literal items,
+        Concat / Unit; atomic symbolic sequences use element facts (assume) or an arbitrary index
+        (prove)"""
+        from .sym import Pair, str_to_z3
 
-        v = self.ev(e.args[0], fr)
         mode = getattr(self, "qmode", "prove")
-        seq = ops.to_seq(self.ctx, v) if not (isinstance(v, PList) and v.sym is None) else None
         out = []
+
+        def walk(e):
+            if z3.is_app(e) and e.decl().kind() == z3.Z3_OP_SEQ_CONCAT:
+                for ch in e.children():
+                    walk(ch)
+                return
+            if z3.is_app(e) and e.decl().kind() == z3.Z3_OP_SEQ_UNIT:
+                out.append(pred(e.arg(0)))
+                return
+            if z3.is_app(e) and e.decl().kind() == z3.Z3_OP_SEQ_EMPTY:
+                return
+            if mode == "assume":
+                self.ctx.seq_facts.append((e, pred))
+                return
+            j = self.ctx.fresh("_sk_j", z3.IntSort())
+            self.ctx.assume(z3.And(j >= 0, j < z3.Length(e)))
+            el = e[j]
+            for (sq, p2) in self.ctx.seq_facts:
+                if z3.eq(sq, e):
+                    self.ctx.assume(p2(el))
+            out.append(z3.Implies(z3.Length(e) > 0, pred(el)))
+
         if isinstance(v, PList):
             for it in v.items:
-                out.append(z3.Length(__import__("pyvc.sym", fromlist=["str_to_z3"]).str_to_z3(it[0])) >= 1)
-            seq = v.sym
-        if seq is not None:
-            if mode == "assume":
-                self.ctx.seq_facts.append((seq.e, lambda el: z3.Length(Pair.fst(el)) >= 1))
-            else:
-                j = self.ctx.fresh("_sk_j", z3.IntSort())
-                self.ctx.assume(z3.And(j >= 0, j < z3.Length(seq.e)))
-                el = seq.e[j]
-                for (sq, pred) in self.ctx.seq_facts:
-                    if z3.eq(sq, seq.e):
-                        self.ctx.assume(pred(el))
-                out.append(z3.Implies(z3.Length(seq.e) > 0, z3.Length(Pair.fst(el)) >= 1))
+                out.append(pred(Pair.mk(str_to_z3(it[0]), str_to_z3(it[1]))))
+            if v.sym is not None:
+                walk(v.sym.e)
+        elif isinstance(v, SymSeq):
+            walk(v.e)
+        elif type(v).__name__ == "Bottom":
+            return False
+        else:
+            raise ContractError(f"seq_forall over {v!r}")
         return mk_bool(z3.And(*out)) if out else True
+
+    def sp_names_nonempty(self, e, fr):
+        """names_nonempty(headers): every header name has length >= 1"""
+        from .sym import Pair
+
+        return self.seq_forall(self.ev(e.args[0], fr), lambda el: z3.Length(Pair.fst(el)) >= 1)
 
     def sp_truthy(self, e, fr):
         v = self.ev(e.args[0], fr)
@@ -409,37 +432,13 @@ class SpecMixin:
         return t if isinstance(t, bool) else mk_bool(t)
 
     def sp_no_ctl_chars(self, e, fr):
-        """no_ctl_chars(headers): no name or value contains CR, LF or NUL.  Assumed: element fact;
-        proved: for an arbitrary element."""
-        from .sym import Pair, str_to_z3
-
-        v = self.ev(e.args[0], fr)
-        mode = getattr(self, "qmode", "prove")
+        """no_ctl_chars(headers): no name or value contains CR, LF or NUL"""
+        from .sym import Pair
 
         def clean(t):
-            return z3.And(*[z3.Not(z3.Contains(t, z3.StringVal(c))) for c in ("\r", "\n", "\x00")])
+            return z3.And(*[z3.Not(z3.Contains(t, z3.StringVal(ch))) for ch in ("\r", "\n", "\x00")])
 
-        out = []
-        seq = None
-        if isinstance(v, PList):
-            for it in v.items:
-                out.append(z3.And(clean(str_to_z3(it[0])), clean(str_to_z3(it[1]))))
-            seq = v.sym
-        elif isinstance(v, SymSeq):
-            seq = v
-        if seq is not None:
-            pred = lambda el: z3.And(clean(Pair.fst(el)), clean(Pair.snd(el)))
-            if mode == "assume":
-                self.ctx.seq_facts.append((seq.e, pred))
-            else:
-                j = self.ctx.fresh("_sk_j", z3.IntSort())
-                self.ctx.assume(z3.And(j >= 0, j < z3.Length(seq.e)))
-                el = seq.e[j]
-                for (sq, p2) in self.ctx.seq_facts:
-                    if z3.eq(sq, seq.e):
-                        self.ctx.assume(p2(el))
-                out.append(z3.Implies(z3.Length(seq.e) > 0, pred(el)))
-        return mk_bool(z3.And(*out)) if out else True
+        return self.seq_forall(self.ev(e.args[0], fr), lambda el: z3.And(clean(Pair.fst(el)), clean(Pair.snd(el))))
 
     def sp_get_truthy(self, e, fr):
         """get_truthy(msg, 'key'): key present and its value truthy (message.get(key, False))"""
